@@ -18,6 +18,7 @@ import (
 	"github.com/idena-network/idena-go/common/eventbus"
 	"github.com/idena-network/idena-go/config"
 	"github.com/idena-network/idena-go/core/appstate"
+	"github.com/idena-network/idena-go/core/flip"
 	"github.com/idena-network/idena-go/core/mempool"
 	"github.com/idena-network/idena-go/core/state"
 	"github.com/idena-network/idena-go/core/upgrade"
@@ -65,6 +66,8 @@ type Node struct {
 	Collector collector.StatsCollector
 	SM        *state.SnapshotManager
 	KeyStore  *keystore.KeyStore
+	Keys      *mempool.KeysPool
+	Flipper   *flip.Flipper
 	SubMgr    *subscriptions.Manager
 }
 
@@ -167,6 +170,10 @@ func (n *Node) start() error {
 	n.Chain.ApplyHotfixToState()
 	n.Pool.Initialize(n.Chain.Head, n.Sec.GetAddress(), false)
 	n.Votes.Initialize(n.Chain.Head)
+	n.Keys = mempool.NewKeysPool(n.Disk, app, n.Bus, n.Sec)
+	n.Flipper = flip.NewFlipper(n.Disk, n.Ipfs, n.Keys, n.Pool, n.Sec, app, n.Bus)
+	n.Flipper.Initialize()
+	n.Keys.Initialize(n.Chain.Head)
 	if n.Epoch != nil {
 		n.Chain.ProvideApplyNewEpochFunc(func(h uint64, a *appstate.AppState, c collector.StatsCollector) types.TotalValidationResult {
 			return n.Epoch(n, h, a, c)
